@@ -422,6 +422,17 @@ func (a *Activation) applyContract(con *FuncContract, fn *ssa.Function, args []V
 			t.set(post, m.array, sApp("store", cur, m.ref, nv))
 		}
 	}
+	// a callee whose contract counts the goroutines it starts changes that counter for its caller as well
+	for _, c := range con.Clauses {
+		if c.Kind == "ensures" && strings.Contains(c.Expr, "spawned()") {
+			t.regArray("$spawned", "Int")
+			old := t.lookup(post, "$spawned")
+			ns := t.fresh("$spawned@c", "Int")
+			t.assume(st.pc, "(>= "+ns+" "+old+")")
+			t.set(post, "$spawned", ns)
+			break
+		}
+	}
 	// the callee may allocate: later allocations of the caller are newer than anything it returned
 	{
 		t.regArray("$now", "Int")
